@@ -238,6 +238,22 @@ pub fn check(p: &Prog, rep: &mut Report) {
     let emitted: Vec<String> = m.top.structs.iter().filter(|s| !RESERVED.contains(&s.name.as_str())).map(|s| s.name.clone()).collect();
     let set: BTreeSet<String> = emitted.iter().cloned().collect();
     rep.nontrivial.insert(hash64(&p.src));
+    // which structs are emitted does not depend on the write options (every 3rd program in quick)
+    if rep.thorough() || hash64(&p.key) % 3 == 0 {
+        for alt in [Config { bytemuck_vertex: true, serde: true, encase: true, repr: Repr::Glam, validate: Validate::All, ..Config::default() }, Config { encase: true, repr: Repr::Nalgebra, rustfmt: false, ..Config::default() }] {
+            rep.evaluations += 1;
+            if let Outcome::Ok(t2) = generate(&p.src, &alt) {
+                let m2 = omodel::parse(&t2).unwrap_or_else(|e| machinery(&format!("C08: {e}")));
+                let mut e2: Vec<String> = m2.top.structs.iter().filter(|s| !RESERVED.contains(&s.name.as_str())).map(|s| s.name.clone()).collect();
+                let mut e1 = emitted.clone();
+                e1.sort();
+                e2.sort();
+                if e1 != e2 {
+                    rep.violation(format!("{}|options={}", p.key, alt.key()), format!("the emitted structs depend on the write options: {e2:?} vs {e1:?}"), json!({"wgsl": p.src, "config": alt.key(), "base": cfg.key()}));
+                }
+            }
+        }
+    }
     rep.outcomes.insert(format!("{set:?}"));
     let detail = json!({"wgsl": p.src, "config": cfg.key(), "expected": p.expected, "emitted": emitted});
     if set.len() != emitted.len() {
